@@ -34,6 +34,7 @@ import (
 
 	"github.com/nginx/kubernetes-ingress/internal/configs"
 	"github.com/nginx/kubernetes-ingress/internal/configs/version1"
+	"github.com/nginx/kubernetes-ingress/internal/k8s"
 	"github.com/nginx/kubernetes-ingress/internal/k8s/secrets"
 	nl "github.com/nginx/kubernetes-ingress/internal/logger"
 	"github.com/nginx/kubernetes-ingress/internal/metrics/collectors"
@@ -44,7 +45,7 @@ import (
 // Op is one operation of a history.  Op/NS/Name/Key/Type/Payload/Salt/Ann are the input; Valid,
 // Main, Crt, Crl are the oracles attached to an upsert (recomputed on every run, also on replay).
 type Op struct {
-	Op      string `json:"op"` // upsert | delete | get | force
+	Op      string `json:"op"` // upsert | delete | get | force ; controller family: cput | cdel | drain | get
 	NS      string `json:"ns,omitempty"`
 	Name    string `json:"name,omitempty"`
 	Key     string `json:"key,omitempty"`
@@ -66,10 +67,11 @@ type File struct {
 }
 
 type StepObs struct {
-	LS    []File `json:"ls"`
-	Path  string `json:"path"`          // get/force: SecretReference.Path with the directory stripped
-	Err   bool   `json:"err"`           // get/force: SecretReference.Error != nil
-	Panic string `json:"panic,omitempty"`
+	LS     []File   `json:"ls"`
+	Path   string   `json:"path"` // get/force: SecretReference.Path with the directory stripped
+	Err    bool     `json:"err"`  // get/force: SecretReference.Error != nil
+	Panic  string   `json:"panic,omitempty"`
+	Synced []string `json:"synced,omitempty"` // drain: keys of the tasks the worker processed, in order
 }
 
 type Case struct {
@@ -298,6 +300,7 @@ func oracle(o *Op) {
 // ---------- the system under test ----------
 
 type sut struct {
+	ctx   context.Context
 	root  string
 	sdir  string
 	lm    *nginx.LocalManager
@@ -324,7 +327,7 @@ func newSUT(root string) (*sut, error) {
 		IsPlus:           true,
 		NginxVersion:     nginx.NewVersion("nginx version: nginx/1.25.3 (nginx-plus-r31)"),
 	})
-	return &sut{root: root, sdir: filepath.Join(root, "secrets"), lm: lm, cnf: cnf, store: secrets.NewLocalSecretStore(cnf)}, nil
+	return &sut{ctx: ctx, root: root, sdir: filepath.Join(root, "secrets"), lm: lm, cnf: cnf, store: secrets.NewLocalSecretStore(cnf)}, nil
 }
 
 func (s *sut) ls() []File {
@@ -422,6 +425,10 @@ func runCase(work string, c *Case) {
 		c.Obs = map[string]any{"error": err.Error()}
 		return
 	}
+	if strings.Contains(c.Class, "ctl") {
+		runCtl(s, c)
+		return
+	}
 	steps := make([]StepObs, 0, len(c.Ops))
 	for i := range c.Ops {
 		o := &c.Ops[i]
@@ -452,6 +459,127 @@ func runCase(work string, c *Case) {
 		steps = append(steps, so)
 	}
 	c.Obs = map[string]any{"steps": steps}
+}
+
+// runCtl: the controller family.  The real controller (production constructor, real Secret
+// handlers, real queue, real lbc.sync, real LocalSecretStore) over the same Configurator and
+// LocalManager; the harness plays the API server + informer.
+func runCtl(s *sut, c *Case) {
+	ctl := k8s.VerifC11New(s.ctx, s.cnf)
+	steps := make([]StepObs, 0, len(c.Ops))
+	rv := 0
+	for i := range c.Ops {
+		o := &c.Ops[i]
+		if o.Op == "cput" {
+			oracle(o)
+		}
+		var so StepObs
+		func() {
+			defer func() {
+				if r := recover(); r != nil {
+					so.Panic = fmt.Sprint(r)
+				}
+			}()
+			switch o.Op {
+			case "cput":
+				rv++
+				sec := mkSecret(*o)
+				sec.ResourceVersion = fmt.Sprint(rv)
+				if err := ctl.Put(sec); err != nil {
+					so.Panic = "put: " + err.Error()
+				}
+			case "cdel":
+				if _, err := ctl.Del(o.NS + "/" + o.Name); err != nil {
+					so.Panic = "del: " + err.Error()
+				}
+			case "drain":
+				so.Synced = ctl.Drain()
+				if n := ctl.QueueLen(); n != 0 {
+					so.Panic = fmt.Sprintf("queue not empty after drain: %d (requeue)", n)
+				}
+			case "get":
+				ref := ctl.Get(o.Key)
+				so.Path, so.Err = s.rel(ref.Path), ref.Error != nil
+			}
+		}()
+		so.LS = s.ls()
+		steps = append(steps, so)
+	}
+	c.Obs = map[string]any{"steps": steps}
+}
+
+func cput(k keyT, typ, payload string, salt int) Op {
+	return Op{Op: "cput", NS: k.ns, Name: k.name, Type: typ, Payload: payload, Salt: salt}
+}
+func cdel(k keyT) Op { return Op{Op: "cdel", NS: k.ns, Name: k.name} }
+
+var drain = Op{Op: "drain"}
+
+// controller-level histories: create / update (type kept) / delete / delete-and-recreate with
+// another type or payload, with the worker running at arbitrary points in between.
+func genCtl(r *vh.Rng, id int) Case {
+	var keys []keyT
+	seen := map[keyT]bool{}
+	for len(keys) < 2+r.Intn(2) {
+		k := keyT{vh.Pick(r, cleanNS), vh.Pick(r, cleanNames)}
+		if !seen[k] {
+			seen[k] = true
+			keys = append(keys, k)
+		}
+	}
+	newType := func() string {
+		if r.Chance(1, 4) {
+			return vh.Pick(r, unsupportedTypes)
+		}
+		t := vh.Pick(r, supportedTypes)
+		for t == "nginx.org/ca" {
+			t = vh.Pick(r, supportedTypes)
+		}
+		if r.Chance(1, 2) {
+			t = vh.Pick(r, fileTypes)
+		}
+		return t
+	}
+	cur := make([]string, len(keys)) // type of the object that exists now
+	exists := make([]bool, len(keys))
+	n := 8 + r.Intn(24)
+	ops := make([]Op, 0, n+2)
+	salt := 0
+	for len(ops) < n {
+		i := r.Intn(len(keys))
+		k := keys[i]
+		x := r.Intn(100)
+		put := func() {
+			if !exists[i] {
+				cur[i], exists[i] = newType(), true
+			}
+			salt++
+			ops = append(ops, cput(k, cur[i], pickPayload(r, cur[i], r.Chance(3, 4)), salt))
+		}
+		switch {
+		case x < 26:
+			put()
+		case x < 36:
+			if exists[i] {
+				exists[i] = false
+				ops = append(ops, cdel(k))
+			}
+		case x < 48: // replaced: delete and re-create, possibly with another type, no worker run in between
+			if exists[i] {
+				exists[i] = false
+				ops = append(ops, cdel(k))
+			}
+			put()
+		case x < 70:
+			ops = append(ops, drain)
+		case x < 74:
+			ops = append(ops, drain, get(k))
+		default:
+			ops = append(ops, get(k))
+		}
+	}
+	ops = append(ops, drain, get(keys[0]))
+	return Case{ID: id, Class: "ctl", Ops: ops}
 }
 
 // ---------- generators ----------
@@ -486,6 +614,12 @@ func witnesses() []Case {
 			up(x, "nginx.org/jwk", "jwk", 0), get(x), up(x, "nginx.org/oidc", "ok", 0), get(x)}},
 		{Class: "witness-retype", Ops: []Op{
 			up(x, "kubernetes.io/tls", "pairA", 0), get(x), up(x, "nginx.org/ca", "caB", 0), get(x)}},
+		{Class: "witness-ctl-recreated-unsupported", Ops: []Op{
+			cput(x, "kubernetes.io/tls", "pairA", 0), drain, get(x),
+			cdel(x), cput(x, "Opaque", "pairA", 1), drain, get(x),
+			cdel(x), drain, cput(x, "Opaque", "junk", 2), drain, get(x),
+			cput(keyT{"team", "s1"}, "kubernetes.io/tls", "pairB", 3), cput(x, "nginx.org/jwk", "jwk", 4), get(x), drain, get(x),
+			cput(x, "nginx.org/jwk", "nokey", 5), cdel(keyT{"team", "s1"}), drain, get(x)}},
 		{Class: "witness-force", Ops: []Op{
 			up(x, "nginx.org/jwk", "nokey", 0), force(x, "jwt"), get(x), up(x, "nginx.org/jwk", "jwk", 1), get(x),
 			up(x, "nginx.org/jwk", "nokey", 2), get(x), up(x, "nginx.org/jwk", "jwk", 3), del(x), force(x, "basic"),
@@ -637,7 +771,11 @@ func main() {
 		root := vh.NewRng(a.Seed)
 		for i := 0; i < a.N; i++ {
 			id := len(cases)
-			cases = append(cases, genHistory(root.Fork(uint64(id)), id))
+			if i%5 == 4 {
+				cases = append(cases, genCtl(root.Fork(uint64(id)), id))
+			} else {
+				cases = append(cases, genHistory(root.Fork(uint64(id)), id))
+			}
 		}
 	}
 	w, err := vh.NewWriter(a.Out)
